@@ -200,9 +200,22 @@ def make_case(name, cfg, r, tier, with_history, export=True):
                     lines += ["fexec", "dump rhs"]
                 # restore the driver/harness state is not needed: each cycle's fresh tree replaces the tree, so only one cycle is compared this way
                 break
+    tsm_moves = {"s": [], "t": []}
+    tsm_input = [list(p) for p in parts]
+    if with_history and real == data and moves_per_cycle:
+        tsm_input = [list(p) for p in cur]       # the comparison with a fresh tree re-sent the edited particles (fparts)
+    if nrhs > 0 and with_history:
+        # the same history on a target/source tree over the same particles (both sets): each side moves on its own
+        lines += ["mark tsm0", "tsm build bs=%d mode=%d" % (bs, mode), "tsm dump", "tsm exec", "tsm export"]
+        for side in ("s", "t"):
+            for i in r.sample(range(n), r.randint(0, n)):
+                np_ = gen_position(r, D, H, center, width, real, prec=data, data=data)
+                tsm_moves[side].append((i, np_))
+                lines.append("tsm move %s %d %s" % (side, i, " ".join("%x" % bits(v, data) for v in np_)))
+        lines += ["mark tsm1", "tsm rebuild", "tsm dump", "tsm exec", "tsm export"]
     lines.append("end")
     return {"name": name, "cfg": cfg, "D": D, "H": H, "periodic": periodic, "lines": lines, "parts": [],
-            "meta": {"center": center, "width": width, "particles": parts, "bs": bs, "mode": mode, "moves": moves_per_cycle}, "bs": bs, "mode": mode}
+            "meta": {"center": center, "width": width, "particles": parts, "bs": bs, "mode": mode, "moves": moves_per_cycle, "tsm_moves": tsm_moves, "tsm_input": tsm_input}, "bs": bs, "mode": mode}
 
 
 def run_cases(cases, binaries):
